@@ -1,10 +1,17 @@
 #!/bin/bash
-# Build the Rocq/Coq development from files on disk only (offline). Full .vo build.
-set -e -o pipefail
+# Build the Rocq/Coq development from files on disk only (offline). Full .vo build (no -vos/-vok).
+# Every coqc runs under a time limit; the build keeps going past a file that fails so that one
+# property's file cannot block the others; it FAILS if the files of a claimed property did not build.
+set -o pipefail
 cd "$(dirname "$0")/coq"
-srcs=$(ls model/*.v proofs/*.v props/*.v | sort)
 { grep -v '\.v$' _CoqProject; for f in model proofs props; do ls $f/*.v | sort; done; } > _CoqProject.new
 mv _CoqProject.new _CoqProject
-coq_makefile -f _CoqProject -o Makefile > /dev/null
-timeout 3000 make -j16 -k 2>&1 | tail -15
+coq_makefile -f _CoqProject -o Makefile > /dev/null || exit 1
+timeout 5400 make -j16 -k COQC='timeout 1200 coqc' 2>&1 | grep -v "^COQC\|^COQDEP\|^make\[" | tail -15
+missing=0
+for id in $(python3 -c "import json;print(' '.join(c['property_id'] for c in json.load(open('../MANIFEST.json'))['checks']))"); do
+  if [ ! -f "props/$id.vo" ]; then echo "setup: props/$id.vo was not built"; missing=1; fi
+done
+[ -f model/Harness.vo ] || { echo "setup: model/Harness.vo was not built"; missing=1; }
+if [ $missing -ne 0 ]; then echo "setup: FAILED"; exit 1; fi
 echo "setup: coq build ok"
